@@ -34,6 +34,7 @@ import (
 	"github.com/IrineSistiana/mosproxy/internal/zzverif/refdns"
 	"github.com/IrineSistiana/mosproxy/internal/zzverif/report"
 	"github.com/quic-go/quic-go"
+	"github.com/quic-go/quic-go/http3"
 	"github.com/rs/zerolog"
 )
 
@@ -144,7 +145,7 @@ func TestVerifC17TLS(t *testing.T) {
 	rep := report.New("C17 TLS authentication")
 	defer rep.Write()
 	rep.Rule = "E1 full matrix with real crypto/tls on loopback, built with the repository's own Go toolchain, every router started from configuration by run(): " +
-		"(upstream) kind {tls, https} x URL host {dot.example, 1.2.3.4, [::1], [2001:db8::53]} (dialled via dial_addr to a local server) x server certificate {valid for all hosts, wrong name, unknown CA, expired, self-signed, chaining to a root of the system trust store (SSL_CERT_FILE) but not to the configured ca} x " +
+		"(upstream) kind {tls, https, quic, h3} x URL host {dot.example, 1.2.3.4, [::1], [2001:db8::53]} (dialled via dial_addr to a local server) x server certificate {valid for all hosts, wrong name, unknown CA, expired, self-signed, chaining to a root of the system trust store (SSL_CERT_FILE) but not to the configured ca} x " +
 		"tls options in the order {ca configured, another ca configured, no ca, ca again, insecure_skip_verify, another ca again} against the same server instance and name (earlier upstreams leave their traces in the process: session tickets, caches); " +
 		"oracle: exchange succeeds iff verification is disabled or the certificate is valid for the host and chains to the configured ca; SNI equals the URL host for names (none for IP literals) and the HTTP Host header equals the URL host; " +
 		"(listener) one router with, per kind {tls, https, quic}, a listener that verifies client certificates and one that does not, sharing the same cert/key/ca files, in every start order {verifying first, non-verifying first, an upstream using the same files for mutual TLS first}, " +
@@ -236,9 +237,46 @@ func TestVerifC17TLS(t *testing.T) {
 	go hs.Serve(dohL)
 	defer hs.Close()
 
+	// DoQ and DoH3 servers (quic-go) with the same certificate switchboard
+	doqL, err := quic.ListenAddr("127.0.0.1:0", srv.tlsConfig("doq"), &quic.Config{})
+	if err != nil {
+		t.Fatal(err)
+	}
+	defer doqL.Close()
+	go func() {
+		for {
+			c, err := doqL.Accept(context.Background())
+			if err != nil {
+				return
+			}
+			go func() {
+				for {
+					st, err := c.AcceptStream(context.Background())
+					if err != nil {
+						return
+					}
+					go func() {
+						defer st.Close()
+						b, _ := io.ReadAll(st)
+						if fs, _ := env.SplitFrames(b); len(fs) == 1 {
+							st.Write(refdns.Frame(c17Answer(fs[0])))
+						}
+					}()
+				}
+			}()
+		}
+	}()
+	h3c, err := net.ListenPacket("udp", "127.0.0.1:0")
+	if err != nil {
+		t.Fatal(err)
+	}
+	h3s := &http3.Server{Handler: hs.Handler, TLSConfig: srv.tlsConfig("h3")}
+	go h3s.Serve(h3c)
+	defer h3s.Close()
+
 	hosts := []struct{ url, sni, name string }{{"dot.example", "dot.example", "dot.example"}, {"1.2.3.4", "", "1.2.3.4"}, {"[::1]", "", "[::1]"}, {"[2001:db8::53]", "", "[2001:db8::53]"}}
 	query := refdns.Query(0x1717, refdns.N("auth", "example", "test"), 1, 1).Encode(false)
-	for _, kind := range []string{"tls", "https"} {
+	for _, kind := range []string{"tls", "https", "quic", "h3"} {
 		for _, h := range hosts {
 			for _, ck := range kinds {
 				// the order matters: an upstream with the trusting CA talks to the server (same name, same server instance) before the
@@ -259,14 +297,21 @@ func TestVerifC17TLS(t *testing.T) {
 					}
 					desc := fmt.Sprintf("%s://%s server-cert=%s options#%d=%s", kind, h.url, ck.name, oi, opt)
 					rep.Eval(desc)
-					l := dotL
+					dial := dotL.Addr().String()
 					addr := "tls://" + h.url
-					if kind == "https" {
-						l = dohL
+					switch kind {
+					case "https":
+						dial = dohL.Addr().String()
 						addr = "https://" + h.url + "/dns-query"
+					case "quic":
+						dial = doqL.Addr().String()
+						addr = "quic://" + h.url
+					case "h3":
+						dial = h3c.LocalAddr().String()
+						addr = "h3://" + h.url + "/dns-query"
 					}
 					r, err := run(context.Background(), &Config{
-						Upstreams: []UpstreamConfig{{Tag: "u", Addr: addr, DialAddr: l.Addr().String(), Tls: tc}},
+						Upstreams: []UpstreamConfig{{Tag: "u", Addr: addr, DialAddr: dial, Tls: tc}},
 						Rules:     []RuleConfig{{Forward: "u"}},
 					})
 					if err != nil {
@@ -441,6 +486,7 @@ func TestVerifC17TLS(t *testing.T) {
 	}
 	rep.Sample(map[string]any{"upstream": "tls://[2001:db8::53] server-cert=valid options=ca", "expect": "success, no SNI, certificate verified for the IP"})
 }
+
 // c17Ask sends one query to a listener with the given client TLS configuration; served = a DNS response came back.
 func c17Ask(kind, addr string, ccfg *tls.Config, query []byte) (served bool, detail string) {
 	switch kind {
